@@ -316,7 +316,10 @@ def block_addressing_rule(ctx, rule):
     sl = Slicer(f.body)
     fl = Flow(f.body)
     vd = sl.var_defs()
-    defs = [(e, bb) for (proj, e, bb) in vd.get("block_offset", []) if proj == ""]
+    # the slot local is whatever indexes self.blocks (named block_offset today)
+    idxs = [show(strip_ref(s_.expr[2][1])) for s_, ai, mut in calls_on_field(prog, OBJRECV, "blocks", funcs=[f]) if method_name(s_) in ("index_mut", "index", "get_mut", "get")]
+    SLOT = idxs[0] if idxs and re.match(r"^\w+(~\d+)?$", idxs[0]) else "block_offset"
+    defs = [(e, bb) for (proj, e, bb) in vd.get(SLOT, []) if proj == ""]
     key = "push_to_block2 block_offset"
     okd = False
     for e, bb in defs:
@@ -334,15 +337,15 @@ def block_addressing_rule(ctx, rule):
         m = method_name(s_)
         if m in ("index_mut", "index", "get_mut", "get"):
             a = show(strip_ref(s_.expr[2][1]))
-            key = "push_to_block2 blocks[%s]" % a
-            if a == "block_offset":
+            key = "push_to_block2 blocks[%s]" % ("block_offset" if a == SLOT else a)
+            if a == SLOT:
                 rule.ok(key, "", s_.loc)
             else:
                 rule.violation(key, "the block vector is indexed with %s, not with the window-relative offset" % a, s_.loc)
         elif m in ("resize_with", "resize"):
             form, c0 = polarity.affine(s_.expr[2][1])
             key = "push_to_block2 blocks.%s" % m
-            if form == {"block_offset": 1} and c0 == 1:
+            if form == {SLOT: 1} and c0 == 1:
                 rule.ok(key, "to block_offset + 1", s_.loc)
             else:
                 rule.violation(key, "the block vector is grown to %s" % show(s_.expr[2][1], 60), s_.loc)
@@ -355,7 +358,7 @@ def block_addressing_rule(ctx, rule):
                 if any(a[0] in ("lt", "le") and t and re.search(r"2048|4096|MAX_PREALLOCATED", show(a[1]) + show(a[2])) for (a, t) in fl.facts_at(bb))]
     for bb, e in errs:
         fs = [(a, t) for (a, t) in fl.facts_at(bb) if a[0] in ("lt", "le") and t and re.search(r"2048|4096", show(a[1]))]
-        if fs and all(show(strip_ref(a[2])) == "block_offset" for (a, t) in fs):
+        if fs and all(show(strip_ref(a[2])) == SLOT for (a, t) in fs):
             rule.ok(key, "under %s" % "; ".join("%s %s %s" % (show(a[1]), "<" if a[0] == "lt" else "<=", show(a[2])) for a, t in fs), loc(f.sp))
         else:
             rule.violation(key, "the refusal is decided by %s: an absolute block number makes large but legitimate objects fail" % (
